@@ -1,6 +1,7 @@
 import FindVerif.Model.Lex.Token
 import FindVerif.Model.Precedence
 import FindVerif.Model.Parse
+import FindVerif.Model.Compile
 /-
   Hand-written support for the generated file `Gen/Parser.lean` (tools/rs2lean.py).
   winnow implements `alt` for tuples of bounded length, so the source nests
@@ -108,5 +109,47 @@ def parseWith (leading : P Char (List GlobalOption)) (emptyTokens : List Token) 
           | .panic s => .panic s
           | .err _ ctx _ => .error (disp ctx rest')
           | .ok e _ => .ok globals' e
+
+end FV.Gen
+
+namespace FV.Gen
+open FV
+
+/-- One element of a format rendered for the template: the function applied to each kind of element is a
+    parameter; the error payloads of a refused element are the model's (`Debug` renderings). -/
+def skelElement (litF : Text → Text) (fieldF : FormatField → Option Text) (specialF : FormatSpecial → Option Text) :
+    FormatElement → Except CompileError Text
+  | .literal s => .ok (litF s)
+  | .field f => match fieldF f with
+    | some t => .ok t
+    | none => .error (.unsupportedFormat f.debugName)
+  | .special v => match specialF v with
+    | some t => .ok t
+    | none => .error (.unsupportedFormat (cl!"Clear"))
+
+/-- `.map(..).collect::<CResult<Vec<String>>>()`: the first error wins. -/
+def skelCollect (el : FormatElement → Except CompileError Text) : List FormatElement → Except CompileError (List Text)
+  | [] => .ok []
+  | e :: rest => match el e with
+    | .error x => .error x
+    | .ok t => match skelCollect el rest with
+      | .error x => .error x
+      | .ok ts => .ok (t :: ts)
+
+/-- `.filter_map(..)` over the fields: the argument of each field that has one, in parentheses. -/
+def skelItems (itemF : FormatField → Option Text) (es : List FormatElement) : List Text :=
+  es.filterMap fun e => match e with
+    | .field f => match itemF f with
+      | some b => if b.isEmpty then none else some (cl!"(" ++ b ++ cl!")")
+      | none => none
+    | _ => none
+
+/-- The statement skeleton of `impl TargetScheme for Vec<FormatElement>` with its variable parts as parameters. -/
+def formatSkeleton (litF : Text → Text) (fieldF : FormatField → Option Text) (specialF : FormatSpecial → Option Text)
+    (itemF : FormatField → Option Text) (tsep isep : Text) (fin : Text → Text → Text)
+    (es : List FormatElement) : Except CompileError Text :=
+  match skelCollect (skelElement litF fieldF specialF) es with
+  | .error x => .error x
+  | .ok ts => .ok (fin (joinWith tsep ts) (joinWith isep (skelItems itemF es)))
 
 end FV.Gen
